@@ -255,20 +255,49 @@ def run_model(family, trace_path, out_path, timeout=1800):
 # Go side
 
 
+VUNIX_HAVE = ("Read,Write,Writev,Readv,Close,Accept4,Accept,Recvfrom,Sendto,Send,EpollWait,EpollCtl,"
+              "EpollCreate1,Eventfd,FcntlInt,Socket")
+VUNIX_IMPORT = 'unix "github.com/panjf2000/gnet/v2/pkg/vunix"'
+
+
+def unix_swap(scratch, files):
+    """Import-swap golang.org/x/sys/unix -> pkg/vunix in the given repo-relative
+    files (current working tree) and generate the alias file for every other
+    unix identifier they use.  Returns (swaps, extra) for make_overlay, or raises."""
+    idents = set()
+    swaps = []
+    for rel in files:
+        src = open(os.path.join(REPO, rel)).read()
+        idents |= set(re.findall(r"\bunix\.([A-Za-z_][A-Za-z0-9_]*)", src))
+        swaps.append((rel, [("golang.org/x/sys/unix", VUNIX_IMPORT)]))
+    tool = os.path.join(scratch, "genvunix")
+    if not os.path.exists(tool):
+        rc, out = go_build("./cmd/genvunix", tool, tags="verif")
+        if rc != 0:
+            raise RuntimeError("genvunix does not build: " + out)
+    rc, out = run(["go", "list", "-f", "{{.Dir}}", "golang.org/x/sys/unix"], cwd=REPO, env=GOENV, timeout=120)
+    udir = out.strip().splitlines()[-1] if rc == 0 else ""
+    alias = os.path.join(scratch, "vunix_alias.go")
+    rc, out = run([tool, "-unixdir", udir, "-o", alias, "-have", VUNIX_HAVE] + sorted(idents), timeout=120)
+    if rc != 0:
+        raise RuntimeError("genvunix failed: " + out)
+    return swaps, [("pkg/vunix/vunix_alias.go", alias)]
+
+
 def make_overlay(scratch, swaps=(), extra=()):
     """Overlay = every harness/export/*.go file (target named in its
     `//verif:target` line) + import-swapped copies of the listed source files.
     swaps: list of (repo-relative file, [(old import path, new import spec)])."""
     rep = {}
-    expdir = os.path.join(HARNESS, "export")
-    for root, _, files in os.walk(expdir):
-        for f in sorted(files):
-            if not f.endswith(".go"):
-                continue
-            p = os.path.join(root, f)
-            m = re.search(r"^//verif:target\s+(\S+)", open(p).read(), re.M)
-            if m:
-                rep[os.path.join(REPO, m.group(1))] = p
+    for expdir in (os.path.join(HARNESS, "export"), os.path.join(HARNESS, "shim")):
+        for root, _, files in os.walk(expdir):
+            for f in sorted(files):
+                if not f.endswith(".go"):
+                    continue
+                p = os.path.join(root, f)
+                m = re.search(r"^//verif:target\s+(\S+)", open(p).read(), re.M)
+                if m:
+                    rep[os.path.join(REPO, m.group(1))] = p
     for rel, subs in swaps:
         src = open(os.path.join(REPO, rel)).read()
         for old, new in subs:
